@@ -18,6 +18,7 @@ struct ccase {
 	uint32_t offer;                 /* index into g_offers */
 	int8_t cb, cn, sb, sn, acc;     /* expected negotiation result (from section a) */
 	uint8_t ckind;                  /* 0 short payload, 1 substitution */
+	uint8_t ccfg;                   /* corrupt section: configuration index */
 	uint8_t cmsg;                   /* base message (payload id) for substitutions */
 	uint16_t cpos, clen;
 	uint8_t cval, cbytes[2];
@@ -549,7 +550,7 @@ static void run_c2s(const struct ccase *c, struct verdict *v)
 		if (e) {
 			char cls[96];
 			snprintf(cls, sizeof(cls), "roundtrip-c2s/%s", e);
-			snprintf(det, sizeof(det), "payload=%s/frag=%s/msg=%d/%s", pl_name[c->payload], fs, i, ps);
+			snprintf(det, sizeof(det), "payload=%s/frag=%s/msg=%d", pl_name[c->payload], fs, i);
 			violate(v, cls, det, "message %d (%s, %zu bytes, %zu compressed, fragments %s) with %s: %s", i, pl_name[c->payload], pl_len[c->payload], wn, fs, ps, why);
 			break;
 		}
@@ -591,7 +592,7 @@ static void run_s2c(const struct ccase *c, struct verdict *v)
 		if (e) {
 			char cls[96];
 			snprintf(cls, sizeof(cls), "roundtrip-s2c/%s", e);
-			snprintf(det, sizeof(det), "payload=%s/msg=%d/%s", pl_name[c->payload], i, ps);
+			snprintf(det, sizeof(det), "payload=%s/msg=%d", pl_name[c->payload], i);
 			violate(v, cls, det, "server->client message %d (%s, %zu bytes) with %s: %s", i, pl_name[c->payload], pl_len[c->payload], ps, why);
 			break;
 		}
@@ -623,7 +624,7 @@ static void run_cor(const struct ccase *c, struct verdict *v)
 	struct neg g;
 	char kind[60], det[120];
 	cor_kind(kind, sizeof(kind), c);
-	snprintf(det, sizeof(det), "L%d/%s", c->level, kind);
+	snprintf(det, sizeof(det), "%s", kind);
 	set_phase("handshake", 0);
 	int r = conn_open(&k, c->level, offer, &g);
 	v->hs++;
